@@ -24,7 +24,9 @@ from ..common import HarnessError, chunked, pmap, rotate, run_py
 from ..world import get_world
 from . import c13
 
-MAGS = [7, 2.5, Decimal("1.10"), 0, -3, 1e21, 1e-7, Decimal("-0.5")]
+# Decimals whose text looks like an integer, has an exponent or trailing zeros included: the
+# magnitude type must survive the text forms
+MAGS = [7, 2.5, Decimal("1.10"), 0, -3, 1e21, 1e-7, Decimal("-0.5"), Decimal("5"), Decimal("-12"), Decimal("0"), Decimal("1E+3"), 0.0]
 CODECS = ["pickle2", "pickle3", "pickle4", "pickle5", "copy", "deepcopy", "json", "json_installed",
           "pydantic_python", "pydantic_json"]
 Q_CODECS = CODECS + ["composite", "json_method"]
@@ -219,6 +221,7 @@ for item in payload:
     row = {"b": item["b"]}
     try:
         up = pickle.loads(base64.b64decode(item["pickle"]))
+        str(up), repr(up), up.dimension, up.factors, up.names, up.symbols  # usable as it arrives
         row["pickle_key"] = repr(w.ukey(up))
         row["pickle_dim"] = list(up.dimension.exponents)
         uj = json.loads(item["json"], cls=mj.MeasuredJSONDecoder)
@@ -240,14 +243,24 @@ def dimension_invariant(w):
     """Every interned unit's dimension equals the product of its base factors' dimensions."""
     m = w.m
     bad = []
-    for u in m.Unit._known.values():
-        if w.is_base(u):
-            continue
-        d = m.Number
-        for f, e in u.factors.items():
-            d = d * f.dimension**e
-        if d is not u.dimension:
-            bad.append(w.ustr(u))
+    for u in list(m.Unit._known.values()):
+        try:
+            if w.is_base(u):
+                continue
+            d = m.Number
+            for f, e in u.factors.items():
+                d = d * f.dimension**e
+            if d is not u.dimension:
+                bad.append(w.ustr(u))
+        except Exception as e:  # noqa
+            bad.append(f"<interned unit is unusable: {type(e).__name__}: {e}>")
+    for cls in (m.Dimension, m.Prefix):
+        for x in list(cls._known.values()):
+            try:
+                repr(x), str(x), hash(x)
+                (x.exponents if cls is m.Dimension else (x.base, x.exponent))
+            except Exception as e:  # noqa
+                bad.append(f"<interned {cls.__name__} is unusable: {type(e).__name__}: {e}>")
     return bad
 
 
